@@ -46,6 +46,15 @@ func (e ipEntry) defaultTrusted() bool {
 	return e.class == clPrivate || e.class == clLoopback || e.class == clLinkLocal
 }
 
+// inClasses reports membership for a range configuration given as option bits (1 private, 2 loopback,
+// 4 link-local); no bit set means no range option took effect, i.e. the documented default of all three.
+func (e ipEntry) inClasses(cfg int) bool {
+	if cfg == 0 {
+		return e.defaultTrusted()
+	}
+	return e.class == clPrivate && cfg&1 != 0 || e.class == clLoopback && cfg&2 != 0 || e.class == clLinkLocal && cfg&4 != 0
+}
+
 func resolveStr(r fox.ClientIPResolver, c fox.Context) (string, bool) {
 	ip, err := r.ClientIP(c)
 	if err != nil || ip == nil {
@@ -129,12 +138,22 @@ func HarnessC18Designate() {
 			sym.Assert(ok && got == ents[idx].ip, "rightmost-trusted-count returns exactly the n-th entry from the right")
 		}
 	case 1: // rightmost non private
-		r, err := clientip.NewRightmostNonPrivate(key)
+		cfg := sym.Choose("trust", 8)
+		var topts []clientip.TrustedRangeOption
+		if sym.ParamOr("ranges", 0) == 1 {
+			topts = []clientip.TrustedRangeOption{clientip.TrustPrivateNet(cfg&1 != 0), clientip.TrustLoopback(cfg&2 != 0), clientip.TrustLinkLocal(cfg&4 != 0)}
+			if cfg != 0 && cfg != 7 {
+				sym.Cover("non private: a strict subset of the range classes configured")
+			}
+		} else {
+			sym.Assume(cfg == 0)
+		}
+		r, err := clientip.NewRightmostNonPrivate(key, topts...)
 		sym.Assert(err == nil, "resolver created")
 		got, ok := resolveStr(r, c)
 		want := ""
 		for i := len(ents) - 1; i >= 0; i-- {
-			if ents[i].ip != "" && !ents[i].defaultTrusted() {
+			if ents[i].ip != "" && !ents[i].inClasses(cfg) {
 				want = ents[i].ip
 				break
 			}
@@ -170,12 +189,19 @@ func HarnessC18Designate() {
 		}
 	case 3: // leftmost non private
 		limit := 1 + sym.Choose("limit", 4)
-		r, err := clientip.NewLeftmostNonPrivate(key, uint(limit))
+		cfg := sym.Choose("exclude", 8)
+		var bopts []clientip.BlacklistRangeOption
+		if sym.ParamOr("ranges", 0) == 1 {
+			bopts = []clientip.BlacklistRangeOption{clientip.ExcludePrivateNet(cfg&1 != 0), clientip.ExcludeLoopback(cfg&2 != 0), clientip.ExcludeLinkLocal(cfg&4 != 0)}
+		} else {
+			sym.Assume(cfg == 0)
+		}
+		r, err := clientip.NewLeftmostNonPrivate(key, uint(limit), bopts...)
 		sym.Assert(err == nil, "resolver created")
 		got, ok := resolveStr(r, c)
 		want := ""
 		for i := 0; i < len(ents) && i < limit; i++ {
-			if ents[i].ip != "" && !ents[i].defaultTrusted() {
+			if ents[i].ip != "" && !ents[i].inClasses(cfg) {
 				want = ents[i].ip
 				break
 			}
